@@ -175,7 +175,7 @@ def install():
 
 
 def set_header_id(v):
-    setattr(_HDR, _ID_ATTR, v & 0xFFFF)
+    setattr(_HDR, _ID_ATTR, v)     # (stored as it is: the counter's wrap-around is the library's business)
 
 
 def get_header_id():
